@@ -12,7 +12,7 @@ func init() {
 	Register(&Property{
 		ID: "C20",
 		Decides: "(R20.1) every (object, header, body) triple put into a last-value cache slot — the permanent databases' last block map / last suffrage proof, the block writer's and the temp database's copies — has all three components assigned from a non-nil source (never a never-assigned variable or a nil constant), and on the reload paths header and body come from the same decoded frame as the object; " +
-			"(R20.2) both permanent back-ends' constructors reload every slot the merge path maintains (encoder hint, block map, suffrage proof, network policy) and fail if a reload fails; (R20.3) writer and reader sides of each record kind use a compatible frame codec pair.; (R20.k) every leveldb key builder carries each of its parameters in full under its own prefix constant; (R20.j) jobs handed to a worker read only captured variables that the submitter does not assign again (no job works on a later batch/slot than the one it was created for); (R20.c) wherever a pool operation record is deleted, the operation is dropped from the operation cache (or there is no cache) before the function returns; (R20.s) a block writer's state cache is not shared across heights (object reads answer from the cache, byte reads and reads after a reopen from the store) — violated today, known finding",
+			"(R20.2) both permanent back-ends' constructors reload every slot the merge path maintains (encoder hint, block map, suffrage proof, network policy) and fail if a reload fails; (R20.3) writer and reader sides of each record kind use a compatible frame codec pair.; (R20.k) every leveldb key builder carries each of its parameters in full under its own prefix constant; (R20.j) jobs handed to a worker read only captured variables that the submitter does not assign again (no job works on a later batch/slot than the one it was created for); (R20.c) wherever a pool operation record is deleted, the operation is dropped from the operation cache (or there is no cache) before the function returns; (R20.s) a block writer's state cache is not shared across heights (object reads answer from the cache, byte reads and reads after a reopen from the store) — violated today, known finding; (R20.m) a permanent database takes over from a merged temp's state cache only states of the merged height (what the merge wrote to storage)",
 		NotDecided: "byte equality of what is served before and after reopening for all histories; pool contents; what leveldb/redis persist.",
 		Run:        runC20,
 	})
@@ -95,6 +95,7 @@ func tripleStores(c *Ctx, fn *ssa.Function, lit ssa.Value) map[int]ssa.Value {
 
 func runC20(c *Ctx) {
 	stateCacheOwnershipRule(c, "R20.s")
+	mergedCacheRule(c, "R20.m")
 	// R20.c: the pool's operation cache holds nothing the store no longer has
 	c.Rule("R20.c", "MustPass")
 	ndel := 0
@@ -347,8 +348,22 @@ func runC20(c *Ctx) {
 	// record was put into the current batch, and a full batch is handed to a writer before it is replaced
 	if parent := c.Need("isaac/database.(*LeveldbPermanent).mergeTempDatabaseFromLeveldb"); parent != nil {
 		c.ArgIs(parent, "the whole temp database is iterated", c.CallsD(parent, "temp.st()#0.Iter(*)"), 1, 0, "nil")
-		if cl := c.ClosureWithCall(parent, "var:batch.Put(k, v)"); cl != nil {
-			c.MP(cl, "copy continues only after the record was put into the batch", c.ReturnsD(cl, 0, "true"), 1, GCalled("var:batch.Put(k, v)"))
+		if cl := c.ClosureWithCall(parent, "*.Put(k, v)"); cl != nil {
+			c.MP(cl, "copy continues only after the record was put into the batch", c.ReturnsD(cl, 0, "true"), 1, GCalled("*.Put(k, v)"))
+			// a record held back in another batch (the commit batch of C21) is written by the merge itself
+			for _, put := range c.CallsTo(cl, "(*storage/leveldb.PrefixStorageBatch).Put") {
+				if a := loadedVar(callCommon(put).Args[0]); a != nil && a.Comment != "batch" {
+					var commits []ssa.Instruction
+					for _, in := range c.CallsTo(parent, "(*storage/leveldb.PrefixStorage).Batch") {
+						if loadedVar(CallArg(in, 0)) == a {
+							commits = append(commits, in)
+						}
+					}
+					if c.Exists(parent, "the held-back batch "+a.Comment+" is written by the merge", commits, 1) {
+						c.MP(parent, "success only after the held-back batch "+a.Comment+" was written", c.SuccessReturns(parent), 1, GOk(globEscape(c.D(commits[0].(ssa.Value)))))
+					}
+				}
+			}
 			c.MP(cl, "a full batch is replaced only after it was handed to a writer", c.StoresD(cl, "&var:batch"), 1, GOk("*.NewJob(*)"))
 		} else {
 			c.Unresolved(parent, "copy callback", "closure putting (k, v) into the batch not found")
@@ -458,4 +473,34 @@ func Returns2(fn *ssa.Function) []ssa.Instruction {
 		out = append(out, r)
 	}
 	return out
+}
+
+// mergedCacheRule (R20.m): what a permanent database takes over from a merged temp's state cache is
+// only what the merge wrote to storage — the states of the merged block. A temp's cache may be
+// shared with writers of other heights (see R20.s); an entry of another height planted in the
+// permanent cache is answered by State() although the storage (and any reopened database) does not
+// hold it. Every cache fill in mergeTempCaches is therefore gated on the entry's height being the
+// merged height (or no fill from the temp's cache happens at all).
+func mergedCacheRule(c *Ctx, rule string) {
+	c.Rule(rule, "MustPass")
+	parent := c.Need("isaac/database.(*basePermanent).mergeTempCaches")
+	if parent == nil {
+		return
+	}
+	n := 0
+	for _, f := range WithClosures(parent) {
+		for _, in := range c.CallsTo(f, "(*isaac/database.basePermanent).setStateToCache") {
+			n++
+			st := c.D(CallArg(in, 0))
+			c.MP(f, "a state taken over from the temp's cache is of the merged height", []ssa.Instruction{in}, 1,
+				GCmp(globEscape(st+".Height()"), "==", "height"), GCmp("height", "==", globEscape(st+".Height()")))
+		}
+	}
+	c.floors[rule+" state cache fills in mergeTempCaches (0 is fine: nothing is taken over)"] = [2]int{0, n}
+	for _, k := range []string{"isaac/database.(*LeveldbPermanent).mergeTempDatabaseFromLeveldb", "isaac/database.(*RedisPermanent).mergeTempDatabaseFromLeveldb"} {
+		if fn := c.Need(k); fn != nil && n > 0 && ParamNamed(parent, "height") != nil {
+			calls := c.CallsTo(fn, "(*isaac/database.basePermanent).mergeTempCaches")
+			c.ArgIs(fn, "the merged height handed to mergeTempCaches is the temp's", calls, 1, 0, "temp.Height()", "temp.mp.Manifest().Height()")
+		}
+	}
 }
